@@ -335,6 +335,111 @@ Proof.
 Qed.
 (* END *)
 
+(* ---------- lib.rs: transpose (cycle following through raw pointers) and the order changes ---------- *)
+(* BEGIN Matrix_transpose *)
+(* the model's transpose with the fuel of the inner loop as a parameter *)
+Definition transpose_f {A} c es (fuel : nat) (m : matrix A) : res (matrix A) :=
+  if es =? 0 then Val (mkMatrix (m_order m) (AxisShape_transpose (m_shape m)) (m_data m)) else
+  let old := m_shape m in
+  let new := AxisShape_transpose old in
+  let n := length (m_data m) in
+  let* va := for_res (zseq (size m)) (repeat false n, m_data m)
+               (fun index va => tr_inner c fuel old new index index (fst va) (snd va)) in
+  Val (mkMatrix (m_order m) new (snd va)).
+Lemma transpose_f_fuel {A} c es (m : matrix A) : transpose c es m = transpose_f c es (S (length (m_data m))) m.
+Proof. reflexivity. Qed.
+
+Lemma for_res_ext2 {S} (l : list Z) (s : S) f g : (forall i s, f i s = g i s) -> for_res l s f = for_res l s g.
+Proof. intros E. revert s. induction l as [|i l IH]; intros s; cbn [for_res]; [reflexivity|]. rewrite E. destruct (g i s); cbn [bind]; auto. Qed.
+
+
+Lemma zrepeat_zlen {X Y} (x : X) (l : list Y) : zrepeat x (zlen l) = repeat x (length l).
+Proof. unfold zrepeat, zlen. rewrite Nat2Z.id. reflexivity. Qed.
+
+(* the cycle-following `loop` of transpose, as translated, is the model's tr_inner *)
+Lemma gen_transpose_loop {A} c fuel old new index : forall current vis (a : list A),
+  (let* st := loop_res fuel (vis, current, a)
+      (fun st : list bool * Z * list A => let '(visited, current, data) := st in
+         let state_i := current in
+         match znth_opt state_i visited with
+         | None => UB UBIndex
+         | Some state_v =>
+           if state_v then Val (false, (visited, current, data))
+           else let visited := zupd visited state_i true in
+             let* r1 := G_AxisIndex_from_flattened c current old in
+             let* r2 := G_AxisIndex_swap c r1 in
+             let* r3 := G_AxisIndex_to_flattened c r2 new in
+             let next := r3 in
+             let x := (0 + index) in
+             let y := (0 + next) in
+             let* data := ptr_swap data x y in
+             let current := next in
+             Val (true, (visited, current, data))
+         end) in
+   let '(visited, current, data) := st in Val (visited, data))
+  = tr_inner c fuel old new index current vis a.
+Proof.
+  induction fuel as [|f IH]; intros current vis a; cbn [loop_res tr_inner bind]; [reflexivity|].
+  destruct (znth_opt current vis) as [[|]|]; cbn [bind fst snd]; try reflexivity.
+  rewrite gen_AxisIndex_from_flattened. unfold remap.
+  destruct (AxisIndex_from_flattened current old) as [i|w|w]; cbn [bind]; try reflexivity.
+  rewrite gen_AxisIndex_swap. cbn [bind]. rewrite gen_AxisIndex_to_flattened.
+  destruct (AxisIndex_to_flattened c (AxisIndex_swap i) new) as [nx|w|w]; cbn [bind]; try reflexivity.
+  change (0 + index) with index. change (0 + nx) with nx.
+  destruct (ptr_swap a index nx) as [a'|w|w]; cbn [bind fst snd]; try reflexivity.
+  apply IH.
+Qed.
+
+Lemma gen_Matrix_transpose {A} c es fuel (m : matrix A) : G_Matrix_transpose c es fuel m = transpose_f c es fuel m.
+Proof.
+  unfold G_Matrix_transpose, transpose_f. destruct (es =? 0); [reflexivity|].
+  cbn [bind G_AxisShape_transpose G_Matrix_size]. unfold size, vec_len, mview, set_m_shape, set_data. cbn [f_Matrix_data m_shape m_data m_order].
+  rewrite zrepeat_zlen.
+  rewrite (for_res_ext2 _ _ _ (fun index va => tr_inner c fuel (m_shape m) (AxisShape_transpose (m_shape m)) index index (fst va) (snd va))).
+  2:{ intros index [vis a]. cbn [fst snd]. apply (gen_transpose_loop c fuel (m_shape m) (AxisShape_transpose (m_shape m)) index index vis a). }
+  cbn [fst snd].
+  match goal with |- context [for_res ?l ?s ?f] => destruct (for_res l s f) as [[v a]|w|w] end; reflexivity.
+Qed.
+
+(* with the fuel the model runs it with (C05 proves that this fuel is never exhausted) it is the model's transpose *)
+Lemma gen_Matrix_transpose_model {A} c es (m : matrix A) : G_Matrix_transpose c es (S (length (m_data m))) m = transpose c es m.
+Proof. rewrite gen_Matrix_transpose. reflexivity. Qed.
+(* END *)
+(* BEGIN Matrix_switch_order *)
+Definition switch_order_f {A} c es fuel (m : matrix A) : res (matrix A) :=
+  let* m' := transpose_f c es fuel m in Val (mkMatrix (Order_switch (m_order m')) (m_shape m') (m_data m')).
+Lemma gen_Matrix_switch_order {A} c es fuel (m : matrix A) : G_Matrix_switch_order c es fuel m = switch_order_f c es fuel m.
+Proof.
+  unfold G_Matrix_switch_order, switch_order_f. rewrite gen_Matrix_transpose.
+  destruct (transpose_f c es fuel m) as [m'|w|w]; cbn [bind]; try reflexivity. rewrite gen_Order_switch. reflexivity.
+Qed.
+Lemma gen_Matrix_switch_order_model {A} c es (m : matrix A) : G_Matrix_switch_order c es (S (length (m_data m))) m = switch_order c es m.
+Proof. rewrite gen_Matrix_switch_order. reflexivity. Qed.
+(* END *)
+(* BEGIN Matrix_switch_order_without_rearrangement *)
+Lemma gen_Matrix_switch_order_without_rearrangement {A} c (m : matrix A) :
+  G_Matrix_switch_order_without_rearrangement c m = Val (switch_order_wr m).
+Proof. unfold G_Matrix_switch_order_without_rearrangement. rewrite gen_Order_switch. reflexivity. Qed.
+(* END *)
+(* BEGIN Matrix_set_order *)
+Lemma gen_Matrix_set_order {A} c es fuel (m : matrix A) o :
+  G_Matrix_set_order c es fuel m o = if order_eqb o (m_order m) then Val m else switch_order_f c es fuel m.
+Proof.
+  unfold G_Matrix_set_order, GOrder_eqb. destruct (order_eqb o (m_order m)); cbn [negb bind]; [reflexivity|].
+  rewrite gen_Matrix_switch_order. destruct (switch_order_f c es fuel m); reflexivity.
+Qed.
+Lemma gen_Matrix_set_order_model {A} c es (m : matrix A) o : G_Matrix_set_order c es (S (length (m_data m))) m o = set_order c es m o.
+Proof. rewrite gen_Matrix_set_order. reflexivity. Qed.
+(* END *)
+(* BEGIN Matrix_set_order_without_rearrangement *)
+Lemma gen_Matrix_set_order_without_rearrangement {A} c (m : matrix A) o :
+  G_Matrix_set_order_without_rearrangement c m o = Val (set_order_wr m o).
+Proof.
+  unfold G_Matrix_set_order_without_rearrangement, set_order_wr, GOrder_eqb. destruct (order_eqb o (m_order m)); cbn [negb bind]; [reflexivity|].
+  rewrite gen_Matrix_switch_order_without_rearrangement. reflexivity.
+Qed.
+(* END *)
+
 (* ---------- iter.rs: the immutable row / column views ---------- *)
 (* BEGIN Matrix_iter_nth_major_axis_vector_unchecked *)
 Lemma gen_Matrix_iter_nth_major_axis_vector_unchecked {A} c (m : matrix A) n :
@@ -368,6 +473,75 @@ Proof.
   unfold G_Matrix_iter_nth_minor_axis_vector, iter_nth_minor_axis_vector, mminor. gsimp.
   destruct (n >=? minor (m_shape m)); [reflexivity|]. rewrite gen_Matrix_iter_nth_minor_axis_vector_unchecked.
   destruct (iter_nth_minor_axis_vector_unchecked c m n); reflexivity.
+Qed.
+(* END *)
+
+(* the mutable views (iter_mut() instead of iter(): the same adaptor chain, so the same elements in the same order;
+   Model/Views.v instantiates them on the matrix of element positions) and the public dispatchers on the storage order *)
+(* BEGIN Matrix_iter_nth_major_axis_vector_unchecked_mut *)
+Lemma gen_Matrix_iter_nth_major_axis_vector_unchecked_mut {A} c (m : matrix A) n :
+  G_Matrix_iter_nth_major_axis_vector_unchecked_mut c m n = iter_nth_major_axis_vector_unchecked c m n.
+Proof.
+  unfold G_Matrix_iter_nth_major_axis_vector_unchecked_mut, iter_nth_major_axis_vector_unchecked, mminor. gsimp.
+  destruct (umul c n _) as [k|w|w]; cbn [bind]; try reflexivity; gsimp; try reflexivity; destruct (zview _ _ _ _); reflexivity.
+Qed.
+(* END *)
+(* BEGIN Matrix_iter_nth_minor_axis_vector_unchecked_mut *)
+Lemma gen_Matrix_iter_nth_minor_axis_vector_unchecked_mut {A} c (m : matrix A) n :
+  G_Matrix_iter_nth_minor_axis_vector_unchecked_mut c m n = iter_nth_minor_axis_vector_unchecked c m n.
+Proof.
+  unfold G_Matrix_iter_nth_minor_axis_vector_unchecked_mut, iter_nth_minor_axis_vector_unchecked, mmajor. gsimp.
+  destruct (umul c n _) as [k|w|w]; cbn [bind]; try reflexivity; gsimp; try reflexivity; destruct (zview _ _ _ _); reflexivity.
+Qed.
+(* END *)
+(* BEGIN Matrix_iter_nth_major_axis_vector_mut *)
+Lemma gen_Matrix_iter_nth_major_axis_vector_mut {A} c (m : matrix A) n :
+  G_Matrix_iter_nth_major_axis_vector_mut c m n = iter_nth_major_axis_vector c m n.
+Proof.
+  unfold G_Matrix_iter_nth_major_axis_vector_mut, iter_nth_major_axis_vector, mmajor. gsimp.
+  destruct (n >=? major (m_shape m)); [reflexivity|]. rewrite gen_Matrix_iter_nth_major_axis_vector_unchecked_mut.
+  destruct (iter_nth_major_axis_vector_unchecked c m n); reflexivity.
+Qed.
+(* END *)
+(* BEGIN Matrix_iter_nth_minor_axis_vector_mut *)
+Lemma gen_Matrix_iter_nth_minor_axis_vector_mut {A} c (m : matrix A) n :
+  G_Matrix_iter_nth_minor_axis_vector_mut c m n = iter_nth_minor_axis_vector c m n.
+Proof.
+  unfold G_Matrix_iter_nth_minor_axis_vector_mut, iter_nth_minor_axis_vector, mminor. gsimp.
+  destruct (n >=? minor (m_shape m)); [reflexivity|]. rewrite gen_Matrix_iter_nth_minor_axis_vector_unchecked_mut.
+  destruct (iter_nth_minor_axis_vector_unchecked c m n); reflexivity.
+Qed.
+(* END *)
+(* BEGIN Matrix_iter_nth_row *)
+Lemma gen_Matrix_iter_nth_row {A} c (m : matrix A) n : G_Matrix_iter_nth_row c m n = iter_nth_row c m n.
+Proof.
+  unfold G_Matrix_iter_nth_row, iter_nth_row. destruct (m_order m);
+    [rewrite gen_Matrix_iter_nth_major_axis_vector|rewrite gen_Matrix_iter_nth_minor_axis_vector];
+    match goal with |- bind ?x _ = _ => destruct x end; reflexivity.
+Qed.
+(* END *)
+(* BEGIN Matrix_iter_nth_col *)
+Lemma gen_Matrix_iter_nth_col {A} c (m : matrix A) n : G_Matrix_iter_nth_col c m n = iter_nth_col c m n.
+Proof.
+  unfold G_Matrix_iter_nth_col, iter_nth_col. destruct (m_order m);
+    [rewrite gen_Matrix_iter_nth_minor_axis_vector|rewrite gen_Matrix_iter_nth_major_axis_vector];
+    match goal with |- bind ?x _ = _ => destruct x end; reflexivity.
+Qed.
+(* END *)
+(* BEGIN Matrix_iter_nth_row_mut *)
+Lemma gen_Matrix_iter_nth_row_mut {A} c (m : matrix A) n : G_Matrix_iter_nth_row_mut c m n = iter_nth_row c m n.
+Proof.
+  unfold G_Matrix_iter_nth_row_mut, iter_nth_row. destruct (m_order m);
+    [rewrite gen_Matrix_iter_nth_major_axis_vector_mut|rewrite gen_Matrix_iter_nth_minor_axis_vector_mut];
+    match goal with |- bind ?x _ = _ => destruct x end; reflexivity.
+Qed.
+(* END *)
+(* BEGIN Matrix_iter_nth_col_mut *)
+Lemma gen_Matrix_iter_nth_col_mut {A} c (m : matrix A) n : G_Matrix_iter_nth_col_mut c m n = iter_nth_col c m n.
+Proof.
+  unfold G_Matrix_iter_nth_col_mut, iter_nth_col. destruct (m_order m);
+    [rewrite gen_Matrix_iter_nth_minor_axis_vector_mut|rewrite gen_Matrix_iter_nth_major_axis_vector_mut];
+    match goal with |- bind ?x _ = _ => destruct x end; reflexivity.
 Qed.
 (* END *)
 
@@ -452,5 +626,61 @@ Proof.
   unfold G_IterVectorsMut_size_hint, Vecs_len, f_IterVectorsMut_layout, f_IterVectorsMut_lower, f_IterVectorsMut_upper, f_Layout_axis_stride.
   destruct s as [lo up [l|]]; cbn [v_lower v_upper v_layout]; [|reflexivity].
   destruct (es =? 0); res_cases.
+Qed.
+(* END *)
+
+(* ---------- iter/iter_mut.rs + iter.rs: the constructors of the outer machine and the public entry points ---------- *)
+(* BEGIN IterVectorsMut_empty *)
+Lemma gen_IterVectorsMut_empty c es al base bytes : G_IterVectorsMut_empty c es al base bytes = Val (Vecs_empty al).
+Proof. reflexivity. Qed.
+(* END *)
+(* BEGIN IterVectorsMut_over_major_axis *)
+Lemma gen_IterVectorsMut_over_major_axis c es al base bytes (m : GMatrix) :
+  G_IterVectorsMut_over_major_axis c es al base bytes m =
+    Vecs_over_major_axis c es al base bytes (f_Matrix_data m) (f_Matrix_shape m).
+Proof.
+  unfold G_IterVectorsMut_over_major_axis, Vecs_over_major_axis.
+  unfold G_Matrix_is_empty, G_IterVectorsMut_empty, G_Matrix_major_stride, G_Matrix_minor_stride, G_Matrix_major, G_Matrix_minor,
+    G_AxisShape_major_stride, G_AxisShape_minor_stride, G_AxisShape_major, G_AxisShape_minor,
+    AxisShape_major_stride, AxisShape_minor_stride, vec_len, f_AxisShape_minor, f_AxisShape_major. cbn [bind].
+  destruct (f_Matrix_data m =? 0); [reflexivity|].
+  destruct (nn_new_unchecked base); cbn [bind]; try reflexivity.
+  repeat (match goal with |- context [bind (nz_new_unchecked ?x) _] => destruct (nz_new_unchecked x); cbn [bind]; try reflexivity end).
+  rewrite gen_IterVectorsMut_assemble. destruct (Vecs_assemble _ _ _ _ _ _ _ _ _); reflexivity.
+Qed.
+(* END *)
+(* BEGIN IterVectorsMut_over_minor_axis *)
+Lemma gen_IterVectorsMut_over_minor_axis c es al base bytes (m : GMatrix) :
+  G_IterVectorsMut_over_minor_axis c es al base bytes m =
+    Vecs_over_minor_axis c es al base bytes (f_Matrix_data m) (f_Matrix_shape m).
+Proof.
+  unfold G_IterVectorsMut_over_minor_axis, Vecs_over_minor_axis.
+  unfold G_Matrix_is_empty, G_IterVectorsMut_empty, G_Matrix_major_stride, G_Matrix_minor_stride, G_Matrix_major, G_Matrix_minor,
+    G_AxisShape_major_stride, G_AxisShape_minor_stride, G_AxisShape_major, G_AxisShape_minor,
+    AxisShape_major_stride, AxisShape_minor_stride, vec_len, f_AxisShape_minor, f_AxisShape_major. cbn [bind].
+  destruct (f_Matrix_data m =? 0); [reflexivity|].
+  destruct (nn_new_unchecked base); cbn [bind]; try reflexivity.
+  repeat (match goal with |- context [bind (nz_new_unchecked ?x) _] => destruct (nz_new_unchecked x); cbn [bind]; try reflexivity end).
+  rewrite gen_IterVectorsMut_assemble. destruct (Vecs_assemble _ _ _ _ _ _ _ _ _); reflexivity.
+Qed.
+(* END *)
+(* BEGIN Matrix_iter_rows_mut *)
+Lemma gen_Matrix_iter_rows_mut c es al base bytes (m : GMatrix) :
+  G_Matrix_iter_rows_mut c es al base bytes m =
+    Matrix_iter_rows_mut c es al base bytes (f_Matrix_order m) (f_Matrix_data m) (f_Matrix_shape m).
+Proof.
+  unfold G_Matrix_iter_rows_mut, Matrix_iter_rows_mut. destruct (f_Matrix_order m);
+    [rewrite gen_IterVectorsMut_over_major_axis|rewrite gen_IterVectorsMut_over_minor_axis];
+    match goal with |- bind (bind ?x _) _ = _ => destruct x end; reflexivity.
+Qed.
+(* END *)
+(* BEGIN Matrix_iter_cols_mut *)
+Lemma gen_Matrix_iter_cols_mut c es al base bytes (m : GMatrix) :
+  G_Matrix_iter_cols_mut c es al base bytes m =
+    Matrix_iter_cols_mut c es al base bytes (f_Matrix_order m) (f_Matrix_data m) (f_Matrix_shape m).
+Proof.
+  unfold G_Matrix_iter_cols_mut, Matrix_iter_cols_mut. destruct (f_Matrix_order m);
+    [rewrite gen_IterVectorsMut_over_minor_axis|rewrite gen_IterVectorsMut_over_major_axis];
+    match goal with |- bind (bind ?x _) _ = _ => destruct x end; reflexivity.
 Qed.
 (* END *)
